@@ -11,6 +11,7 @@
 //	nilarg     literal nil passed for a pointer or interface parameter of a function of another module
 //	nilfield   dereference of a pointer-typed struct field reached through a selector chain (nilfield.go)
 //	dyncmp     == / != on two operands of type any (nilfield.go)
+//	unsetfield a nilable field that one constructor of a struct sets and another leaves out, and that is used (unsetfield.go)
 //
 // One JSON document per line: {file, line, func, kind, expr, guarded, n}. `guarded` is a syntactic
 // heuristic (see the guard* functions); line numbers are informational and are not part of a
@@ -133,6 +134,7 @@ func isConst(info *types.Info, e ast.Expr) (constant.Value, bool) {
 func (w *walker) walkFunc(name string, recvObj types.Object, body ast.Node) {
 	info := w.pkg.TypesInfo
 	w.nilfieldAndCmp(name, body)
+	w.templateReentry(name, body)
 	okForm := map[*ast.TypeAssertExpr]bool{}
 	ast.Inspect(body, func(n ast.Node) bool {
 		switch x := n.(type) {
@@ -457,6 +459,7 @@ func main() {
 				}
 			}
 		}
+		w.unsetFields(p)
 		all = append(all, w.sites...)
 	}
 	if bad {
